@@ -1528,6 +1528,13 @@ def tab4(units, R):
         p = cmp_parts(b.expr)
         if p and p[1] == '==' and p[2] == 0 and p[0].get('k') == 'call' and callee_name(p[0]) in ('strncmp', 'memcmp'):
             lits = [strip_casts(a) for a in p[0]['args'] if strip_casts(a).get('k') == 'str']
+            if not lits:
+                # the mark spelled as a constant array of the unit (static const char utf8_bom[] = "\xEF\xBB\xBF")
+                for a in p[0]['args'][:2]:
+                    a0 = strip_casts(a)
+                    tb = _const_table(u, a0) if a0.get('k') == 'ref' else None
+                    if tb is not None:
+                        lits = [{'k': 'str', 'bytes': [x_ for x_ in tb[:-1]] if tb and tb[-1] == 0 else list(tb)}]
             nn = const_val(p[0]['args'][2])
             adv = None
             for y in [y for (y, l) in cfgb.succ[b.id] if l and l[0] == 'T']:
@@ -1958,8 +1965,13 @@ def out9(units, R, fn_name='parse_string'):
     for d_ in fn.locals():
         if 'init' in d_:
             inits.setdefault(d_['n'], []).append(d_['init'])
+    cfg9 = fn.cfg()
+    heads9 = {n_.id for n_ in cfg9.nodes if n_.kind == 'nop' and n_.name == 'loop-head'}
     for a in assignments(fn):
         if is_ref(a['l']):
+            an_ = cfg9.node_of_expr(a['id'])
+            if an_ is not None and heads9 and not (cfg9.reachable(an_.id) & heads9):
+                continue        # set on the way out (the failure position handed to the error report): no loop sees it
             inits.setdefault(strip_casts(a['l'])['n'], []).append(a['r'] if a['op'] == '=' else None)
     stepped = {strip_casts(x['e'])['n'] for x in fn.nodes() if x.get('k') == 'un' and x.get('op') in ('pre++', 'pre--', 'post++', 'post--')
                and is_ref(x['e'])}
@@ -2167,6 +2179,19 @@ def out9(units, R, fn_name='parse_string'):
             ncall += 1
             continue
         moved = sg.adv(o)
+        if (moved is None or moved != len(ws) or sorted(w[1] for w in ws) != list(range(len(ws)))):
+            # a turn that copies a run of bytes whose length is computed (memcpy(out, in, n); out += n; in += n): the byte-by-byte
+            # account of this rule does not apply
+            for nd_ in fn.cfg().nodes:
+                root_ = getattr(nd_, 'expr', None)
+                if root_ is None:
+                    continue
+                for c_ in walk(root_):
+                    if c_.get('k') == 'call' and callee_name(c_) in ('memcpy', '__builtin_memcpy', '__builtin___memcpy_chk', 'memmove') and \
+                            len(c_['args']) == 3 and const_val(c_['args'][2]) is None and is_ref(c_['args'][0]) and \
+                            strip_casts(c_['args'][0])['n'] == (o if isinstance(o, str) else o[0]):
+                        raise AnalysisBroken('OUT9: %s: the decoder of %s copies %s bytes at once; this rule accounts for the output byte by '
+                                             'byte' % (fn.where(c_), fn_name, expr_str(strip_casts(c_['args'][2]))[:30]))
         if moved is None or moved != len(ws) or sorted(w[1] for w in ws) != list(range(len(ws))):
             worst = worst or 'a turn ending at line %d writes at positions that are not consecutive' % sg.line
             continue
@@ -2540,6 +2565,11 @@ def tab17(units, R):
             # 2. the call is (under `!`) the branch condition
             if node.kind == 'branch' and strip_casts(node.expr) is c:
                 starts = [y for (y, l) in cfg.succ[node.id] if l and l[0] == 'F']
+                var_d = None
+            elif p is not None and p.get('k') == 'bin' and p['op'] in ('==', '!=') and node.kind == 'branch' and strip_casts(node.expr) is p and \
+                    any((const_val(o_) == 0 or is_null_const(o_)) for o_ in (p['l'], p['r']) if strip_casts(o_) is not c):
+                # the call compared with its failure value in the condition itself: (f(x) == 0), (f(x) != NULL)
+                starts = [y for (y, l) in cfg.succ[node.id] if l and l[0] == ('T' if p['op'] == '==' else 'F')]
                 var_d = None
             elif p is not None and p.get('k') == 'bin' and p['op'] == '=' and is_ref(p['l']) and strip_casts(p['r']) is c:
                 var_d = strip_casts(p['l'])['d']
